@@ -218,6 +218,7 @@ func init() {
 		ID:    "C30",
 		Level: "exploration",
 		Rule: "60-159 (thorough 300-899) simulated connection attempts per run between 7 real nodes with clock skews of +-4 s (sometimes +-20 s or +-1 h) applied and changed during the run: real BuildAuthenticationMessage output delivered after 0-300 ms, 0-9 s, 9-12 s (around the 10 s timeout) or 20-620 s (replay), to the intended node, to another node or back to its author, with one random bit (of all 1096) flipped in 35% of the cases; real AuthenticateAs judged by an independent ed25519/recipient/freshness/identity check; " +
+			"half of the altered copies are delivered 30 ms after the genuine message to the same receiver (random bit, refreshed stamp, redirected recipient or toggled relayer flag); " +
 			"non-trivial = at least one accepted and one rejected attempt; distinct = canonical-log digests. The QUIC/TLS part of the handshake is a stub.",
 		Components: map[string]string{"kernel.Node.BuildAuthenticationMessage / AuthenticateAs": "real", "kernel clock": "simulated per node", "QUIC dial/accept, stream framing": "stub"},
 		Assume:     []string{"A2 blake3/ed25519 libraries correct"},
